@@ -240,7 +240,7 @@ type planResult struct {
 	tot              statsRec
 	exhaustive       bool
 	capped           []string
-	boundedN         int   // scenarios explored completely below a preemption bound (too large for all interleavings)
+	boundedN         int // scenarios explored completely below a preemption bound (too large for all interleavings)
 	boundedExecs     int64
 	boundedCapped    int
 	visibles         int
@@ -469,7 +469,11 @@ func replayMain(path, build, overlay, repo, cffBin string) {
 		mc.ToolError("%v", err)
 	}
 	t := []genrt.Task{{Sc: in.Scenario, Replay: rp.Decisions}}
-	if t[0].Replay == nil {
+	if rp.Visible == "(whole exploration)" {
+		// a finding about all schedules of the scenario: explore it again
+		t[0].Replay = nil
+		t[0].DeadlineS = 600
+	} else if t[0].Replay == nil {
 		t[0].Replay = []int{}
 	}
 	tb, _ := json.Marshal(t)
